@@ -64,6 +64,8 @@ impl View for Fl { type V = real; uninterp spec fn view(&self) -> real; }
     w("pub uninterp spec fn eps_r() -> real;\n")
     w("pub uninterp spec fn floor_r(x: real) -> int;\n")
     w("#[verifier::inline] pub open spec fn is_int_r(x: real) -> bool { floor_r(x) as real == x }\n")
+    w("// a / b with the value at a == 0 made explicit (so that an absent (= zero) part divided by a scalar is zero without arithmetic reasoning)\n")
+    w("#[verifier::inline] pub open spec fn rdiv(a: real, b: real) -> real { if a == 0real { 0real } else { a / b } }\n")
     w("#[verifier::inline] pub open spec fn abs_r(x: real) -> real { if x >= 0real { x } else { -x } }\n")
     for c in CONSTS:
         w(f"pub uninterp spec fn c_{c}() -> real;\n")
@@ -163,3 +165,82 @@ pub proof fn ax_float_grid_two(n: real) requires abs_r(n - 2real) < eps_r() ensu
 
 if __name__ == "__main__":
     print(generate())
+
+
+def generate_mx():
+    """model of nalgebra::OMatrix<Sc, R, C> (static and dynamic storage alike): shape + total entry function;
+    only the operations the crate uses; matrix products restricted to inner dimension 1"""
+    o = []
+    w = o.append
+    w("""
+// ===================== matrix model (assumed contracts on nalgebra; DESIGN.md §2.2) =====================
+#[verifier::external_body] pub struct Mx { v: Vec<f64> }
+#[verifier::external_body] pub struct Dm { v: usize }
+impl View for Dm { type V = int; uninterp spec fn view(&self) -> int; }
+pub uninterp spec fn dim_D() -> int;
+pub uninterp spec fn dim_M() -> int;
+pub uninterp spec fn dim_N() -> int;
+impl Mx {
+    pub uninterp spec fn nrows(&self) -> int;
+    pub uninterp spec fn ncols(&self) -> int;
+    pub uninterp spec fn at(&self, i: int, j: int) -> real;
+    pub open spec fn same_shape(&self, o: &Mx) -> bool { self.nrows() == o.nrows() && self.ncols() == o.ncols() }
+    #[verifier::external_body] pub fn zeros_generic(r: Dm, c: Dm) -> (m: Mx) ensures m.nrows() == r@, m.ncols() == c@, forall|i: int, j: int| #![trigger m.at(i, j)] m.at(i, j) == 0real { unimplemented!() }
+    #[verifier::external_body] pub fn tr_mul(&self, r: &Mx) -> (m: Mx) requires self.nrows() == 1, r.nrows() == 1 ensures m.nrows() == self.ncols(), m.ncols() == r.ncols(), forall|i: int, j: int| #![trigger m.at(i, j)] m.at(i, j) == self.at(0, i) * r.at(0, j) { unimplemented!() }
+}
+impl Clone for Mx { #[verifier::external_body] fn clone(&self) -> (m: Mx) ensures m.same_shape(self), forall|i: int, j: int| #![trigger m.at(i, j)] m.at(i, j) == self.at(i, j) { unimplemented!() } }
+""")
+
+    def op(tr, lhs, rhs, req, ens, lts=""):
+        m = tr.lower()
+        w(spec_ops2(tr, lhs, rhs, "Mx", req, lts))
+        targ = f"<{rhs}>" if rhs else ""
+        params = f"self, rhs: {rhs}" if rhs else "self"
+        w(f"impl{lts} core::ops::{tr}{targ} for {lhs} {{ type Output = Mx; #[verifier::external_body] fn {m}({params}) -> (m: Mx) ensures {ens} {{ unimplemented!() }} }}\n")
+
+    E = "forall|i: int, j: int| #![trigger m.at(i, j)] m.at(i, j) == "
+    for lhs, lts in [("Mx", ""), ("&'a Mx", "<'a>")]:
+        op("Mul", lhs, "Sc", "true", "m.same_shape(&self), " + E + "self.at(i, j) * rhs@", lts)
+        op("Div", lhs, "Sc", "rhs@ != 0real", "m.same_shape(&self), " + E + "rdiv(self.at(i, j), rhs@)", lts)
+        op("Neg", lhs, "", "true", "m.same_shape(&self), " + E + "-self.at(i, j)", lts)
+    op("Mul", "&'a Mx", "&'b Mx", "self.ncols() == 1 && rhs.nrows() == 1", "m.nrows() == self.nrows(), m.ncols() == rhs.ncols(), " + E + "self.at(i, 0) * rhs.at(0, j)", "<'a, 'b>")
+    for tr, sym in [("Add", "+"), ("Sub", "-")]:
+        op(tr, "Mx", "Mx", "self.same_shape(&rhs)", "m.same_shape(&self), " + E + f"self.at(i, j) {sym} rhs.at(i, j)")
+        op(tr, "&'a Mx", "&'b Mx", "self.same_shape(rhs)", "m.same_shape(self), " + E + f"self.at(i, j) {sym} rhs.at(i, j)", "<'a, 'b>")
+    EF = "forall|i: int, j: int| #![trigger final(self).at(i, j)] final(self).at(i, j) == "
+
+    def expr(sym, rv):
+        return f"rdiv(old(self).at(i, j), {rv})" if sym == "rdiv" else f"old(self).at(i, j) {sym} {rv}"
+
+    for tr, m, rhs, req, sym, rv in [("AddAssign", "add_assign", "&'a Mx", "self.same_shape(rhs)", "+", "rhs.at(i, j)"),
+                                     ("SubAssign", "sub_assign", "&'a Mx", "self.same_shape(rhs)", "-", "rhs.at(i, j)"),
+                                     ("MulAssign", "mul_assign", "Sc", "true", "*", "rhs@"),
+                                     ("DivAssign", "div_assign", "Sc", "rhs@ != 0real", "rdiv", "rhs@")]:
+        lts = "<'a>" if "'a" in rhs else ""
+        w(spec_ops2(tr, "Mx", rhs, "Mx", req, lts))
+        w(f"impl{lts} core::ops::{tr}<{rhs}> for Mx {{ #[verifier::external_body] fn {m}(&mut self, rhs: {rhs}) ensures final(self).same_shape(old(self)), {EF}{expr(sym, rv)} {{ unimplemented!() }} }}\n")
+    w("""
+impl Derivative {
+    pub open spec fn dense(&self, i: int, j: int) -> real { match self.0 { Some(m) => m.at(i, j), None => 0real } }
+    pub open spec fn present(&self) -> bool { self.0.is_some() }
+    pub open spec fn nr(&self) -> int { match self.0 { Some(m) => m.nrows(), None => 0 } }
+    pub open spec fn nc(&self) -> int { match self.0 { Some(m) => m.ncols(), None => 0 } }
+    pub open spec fn shape_eq(&self, o: &Derivative) -> bool { self.nr() == o.nr() && self.nc() == o.nc() }
+    pub open spec fn rows_are(&self, r: int) -> bool { match self.0 { Some(m) => m.nrows() == r, None => true } }
+    pub open spec fn cols_are(&self, c: int) -> bool { match self.0 { Some(m) => m.ncols() == c, None => true } }
+    pub open spec fn fits(&self, r: int, c: int) -> bool { self.rows_are(r) && self.cols_are(c) }
+    pub open spec fn compat(&self, o: &Derivative) -> bool { match (self.0, o.0) { (Some(a), Some(b)) => a.same_shape(&b), _ => true } }
+}
+""")
+    return "".join(o)
+
+
+def spec_ops2(tr, lhs, rhs, out, req, lts):
+    sn = {"Add": "add", "Sub": "sub", "Mul": "mul", "Div": "div", "Neg": "neg",
+          "AddAssign": "add_assign", "SubAssign": "sub_assign", "MulAssign": "mul_assign", "DivAssign": "div_assign"}[tr]
+    targ = f"<{rhs}>" if rhs else ""
+    slf = "&self" if tr.endswith("Assign") else "self"
+    params = f"{slf}, rhs: {rhs}" if rhs else slf
+    amp = "&" if tr.endswith("Assign") else ""
+    return (f"impl{lts} vstd::std_specs::ops::{tr}SpecImpl{targ} for {lhs} {{ open spec fn obeys_{sn}_spec() -> bool {{ false }} "
+            f"open spec fn {sn}_req({params}) -> bool {{ {req} }} open spec fn {sn}_spec({params}) -> {amp}{out} {{ arbitrary() }} }}\n")
